@@ -50,6 +50,10 @@ func runC11(c *Ctx) {
 	c.rulePersistentAccept("R11.5")
 	c.ruleDistributedBinders("R11.5")
 	c.ruleCloseSiblings("R11.6", false)
+	// recovery: what the adapter holds is drained without further prompting — the dispatcher keeps going after a
+	// failed step and no wake-up is lost
+	c.ruleDispatcherLoop("R11.7")
+	c.ruleNotifyAfterChange("R11.8")
 }
 
 func (c *Ctx) ruleWhoAcknowledges(rule string) {
@@ -71,51 +75,15 @@ func (c *Ctx) ruleRightReceipt(rule string) {
 		return
 	}
 	info := R.Step.Info()
-	// variables assigned from DequeueWithAckId
-	var ackVar, queueVar types.Object
-	var dequeuedFrom []types.Object
-	ast.Inspect(R.Step.Body, func(n ast.Node) bool {
-		switch x := n.(type) {
-		case *ast.AssignStmt:
-			if len(x.Rhs) != 1 {
-				return true
-			}
-			call, ok := ast.Unparen(x.Rhs[0]).(*ast.CallExpr)
-			if !ok {
-				return true
-			}
-			ce := resolveCallee(info, call)
-			if ce.Key == kDequeueAck && len(x.Lhs) == 3 {
-				ackVar = rootIdent(info, x.Lhs[2])
-			}
-			if ce.Key == kDequeueAck || ce.Key == kDequeue {
-				if o := rootIdent(info, ce.Recv); o != nil {
-					dequeuedFrom = append(dequeuedFrom, o)
-				}
-			}
-		}
-		return true
-	})
-	// the queue variable: what the type switch / dequeue receivers derive from
-	ast.Inspect(R.Step.Body, func(n ast.Node) bool {
-		if ts, ok := n.(*ast.TypeSwitchStmt); ok {
-			if as, ok := ts.Assign.(*ast.AssignStmt); ok && len(as.Rhs) == 1 {
-				if ta, ok := ast.Unparen(as.Rhs[0]).(*ast.TypeAssertExpr); ok {
-					for _, cc := range ts.Body.List {
-						for _, d := range dequeuedFrom {
-							if info.Implicits[cc] == d {
-								queueVar = rootIdent(info, ta.X)
-							}
-						}
-					}
-				}
-			}
-		}
-		return true
-	})
+	pv := c.deqProvenance()
+	if pv.Problem != "" || pv.DeqFn == nil {
+		c.Rep.undecided(rule, R.Step.Short(), "dequeue provenance", "", pv.Problem)
+		return
+	}
+	deqFn, dinfo := pv.DeqFn, pv.DeqFn.Info()
 	// every queue that can issue receipts is dequeued with one: the branch calling DequeueWithAckId is selected by
 	// exactly the interface that declares it (a narrower case type sends other acknowledging adapters to plain Dequeue)
-	ast.Inspect(R.Step.Body, func(n ast.Node) bool {
+	ast.Inspect(deqFn.Body, func(n ast.Node) bool {
 		ts, ok := n.(*ast.TypeSwitchStmt)
 		if !ok {
 			return true
@@ -125,7 +93,7 @@ func (c *Ctx) ruleRightReceipt(rule string) {
 			has := false
 			for _, s := range clause.Body {
 				ast.Inspect(s, func(m ast.Node) bool {
-					if call, ok := m.(*ast.CallExpr); ok && resolveCallee(info, call).Key == kDequeueAck {
+					if call, ok := m.(*ast.CallExpr); ok && resolveCallee(dinfo, call).Key == kDequeueAck {
 						has = true
 					}
 					return true
@@ -134,8 +102,8 @@ func (c *Ctx) ruleRightReceipt(rule string) {
 			if !has {
 				continue
 			}
-			good := len(clause.List) == 1 && qualTypeName(info.TypeOf(clause.List[0])) == modPath+".IAcknowledgeable"
-			c.Rep.check(good, rule, R.Step.Short(), "receipt branch selected by a narrower type than IAcknowledgeable", c.P.pos(clause), "case IAcknowledgeable → DequeueWithAckId",
+			good := len(clause.List) == 1 && qualTypeName(dinfo.TypeOf(clause.List[0])) == modPath+".IAcknowledgeable"
+			c.Rep.check(good, rule, deqFn.Short(), "receipt branch selected by a narrower type than IAcknowledgeable", c.P.pos(clause), "case IAcknowledgeable → DequeueWithAckId",
 				"the branch that dequeues with a receipt is not selected by the IAcknowledgeable interface itself: acknowledging adapters that do not match the narrower type (e.g. the priority variants) are read with plain Dequeue, without a receipt, and their in-flight jobs are lost on a crash")
 		}
 		return true
@@ -146,11 +114,16 @@ func (c *Ctx) ruleRightReceipt(rule string) {
 		case "setAckId":
 			nAck++
 			o := rootIdent(info, cs.Call.Args[0])
-			good := o != nil && o == ackVar
+			good := o != nil && pv.Ack[o]
 			if good {
+				// the variable has no other source than this delivery's receipt
 				all, n := assignedOnlyFrom(R.Step, o, func(rhs ast.Expr, idx, cnt int) bool {
 					call, ok := ast.Unparen(rhs).(*ast.CallExpr)
-					return ok && resolveCallee(info, call).Key == kDequeueAck && idx == 2
+					if !ok {
+						return false
+					}
+					k := resolveCallee(info, call).Key
+					return (k == kDequeueAck && idx == 2) || (deqFn != R.Step && k == deqFn.Key)
 				})
 				good = all && n == 1
 			}
@@ -159,7 +132,7 @@ func (c *Ctx) ruleRightReceipt(rule string) {
 		case "setInternalQueue":
 			nQ++
 			o := rootIdent(info, cs.Call.Args[0])
-			c.Rep.check(o != nil && o == queueVar, rule, R.Step.Short(), "setInternalQueue argument is not the queue dequeued from", c.P.pos(cs.Call), "setInternalQueue(queue the item came from)",
+			c.Rep.check(o != nil && pv.Queue[o], rule, R.Step.Short(), "setInternalQueue argument is not the queue dequeued from", c.P.pos(cs.Call), "setInternalQueue(queue the item came from)",
 				"the queue attached to a decoded job must be the queue it was dequeued from (Acknowledge would go to another adapter)")
 		}
 	}
@@ -504,6 +477,18 @@ func (c *Ctx) ruleWireType(rule string) {
 				if name == "-" || names[strings.ToLower(name)] || !st.Field(i).Exported() {
 					good = false
 				}
+				// a dropping option (omitempty, omitzero) or a re-typing one (string) makes the encoder leave out or
+				// rewrite some values — an empty non-nil slice or map payload comes back as nil, a zero id is lost
+				if j := strings.Index(tag, `json:"`); j >= 0 {
+					opts := tag[j+6:]
+					opts = opts[:strings.Index(opts, `"`)]
+					for k, o := range strings.Split(opts, ",") {
+						if k > 0 && o != "" {
+							c.Rep.fail(rule, shortKey(qualTypeName(wOut)), "wire field "+st.Field(i).Name()+" has the JSON option "+o, "",
+								"the wire struct field "+st.Field(i).Name()+" carries the JSON option `"+o+"`: some values are omitted or rewritten by the encoder and decode to something else (an empty, non-nil slice or map payload decodes as nil)")
+						}
+					}
+				}
 				names[strings.ToLower(name)] = true
 			}
 			c.Rep.check(good && st.NumFields() >= 3, rule, shortKey(qualTypeName(wOut)), "wire struct field names clash or are hidden", "", "three exported fields with distinct JSON names", "the wire struct's fields must be exported with pairwise distinct JSON names (a clash silently drops id, status or payload)")
@@ -573,8 +558,27 @@ func (c *Ctx) ruleEncodeFailure(rule string) {
 	c.Rep.rule(rule, "E2 path", "persistent/distributed Add: encode error ⇒ false without Enqueue; the value enqueued is the Json() result", 8)
 	jk := c.jsonKey()
 	n := 0
+	// a submit function "encodes" when it calls Json() itself or through a helper of the library
+	var reachesJson func(f *Func, depth int) *Func
+	reachesJson = func(f *Func, depth int) *Func {
+		if c.P.containsCall(f, jk) {
+			return f
+		}
+		if depth == 0 {
+			return nil
+		}
+		for _, cs := range c.P.calls(f) {
+			if g := c.P.byObj[cs.Callee.Key]; g != nil && g.Lib && g != f && g.Pkg.PkgPath == modPath && g.Decl != nil && g.Decl.Recv == nil {
+				if h := reachesJson(g, depth-1); h != nil {
+					return g
+				}
+			}
+		}
+		return nil
+	}
 	for _, f := range c.submitFuncs() {
-		if !c.P.containsCall(f, jk) {
+		enc := reachesJson(f, 2)
+		if enc == nil {
 			continue
 		}
 		n++
@@ -595,9 +599,37 @@ func (c *Ctx) ruleEncodeFailure(rule string) {
 		info := f.Info()
 		var jv types.Object
 		ast.Inspect(f.Body, func(x ast.Node) bool {
-			if as, ok := x.(*ast.AssignStmt); ok && len(as.Rhs) == 1 && len(as.Lhs) == 2 {
-				if call, ok := ast.Unparen(as.Rhs[0]).(*ast.CallExpr); ok && resolveCallee(info, call).Key == jk {
-					jv = rootIdent(info, as.Lhs[0])
+			as, ok := x.(*ast.AssignStmt)
+			if !ok || len(as.Rhs) != 1 {
+				return true
+			}
+			call, ok := ast.Unparen(as.Rhs[0]).(*ast.CallExpr)
+			if !ok {
+				return true
+			}
+			switch k := resolveCallee(info, call).Key; {
+			case k == jk && len(as.Lhs) == 2:
+				jv = rootIdent(info, as.Lhs[0])
+			case enc != f && k == enc.Key:
+				// the helper's result position that carries the bytes Json() produced
+				var hv types.Object
+				ast.Inspect(enc.Body, func(y ast.Node) bool {
+					if has, ok := y.(*ast.AssignStmt); ok && len(has.Rhs) == 1 && len(has.Lhs) == 2 {
+						if hc, ok := ast.Unparen(has.Rhs[0]).(*ast.CallExpr); ok && resolveCallee(enc.Info(), hc).Key == jk {
+							hv = rootIdent(enc.Info(), has.Lhs[0])
+						}
+					}
+					return true
+				})
+				for i, kind := range helperResultKinds(enc, func(o types.Object) string {
+					if o == hv && hv != nil {
+						return "json"
+					}
+					return ""
+				}) {
+					if kind == "json" && i < len(as.Lhs) {
+						jv = rootIdent(info, as.Lhs[i])
+					}
 				}
 			}
 			return true
